@@ -198,6 +198,7 @@ class Check:
         self.trusted = []
         self.samples = []
         self.traces_validated = 0
+        self.oracle_selftest = []   # thorough tier: replay specs whose driver must NOT report a difference on this tree
         self.validate = []          # encoder-validation scenarios (replay_drivers/scenarios.py)
         self.validation = {}
         self.extra_cov = {}
@@ -299,12 +300,20 @@ class Check:
                         violations.append(f)
                 else:
                     spurious.append(f)
-            if self.validate and os.environ.get("VERIF_NO_VALIDATE") != "1" and build is None and not repo_build_is_current() \
-                    and os.environ.get("VERIF_VALIDATE") != "always":
-                # a scratch build (minutes) only for validation is not worth it: the encoder is validated on every run
-                # where the in-place build is current or a replay needed a build anyway
-                self.validation = {"skipped": "the in-place build is older than the working tree and no replay needed a scratch build"}
-            elif self.validate and os.environ.get("VERIF_NO_VALIDATE") != "1":
+            if self.oracle_selftest and replay is not None and self.tier == "thorough" and not violations:
+                # the replay oracle on its own: with no obligation failed, the driver's concrete battery must agree with
+                # the build too (a difference = a defect the encoding missed, or a wrong oracle: inconclusive either way)
+                if build is None:
+                    build = Build()
+                    build.acquire()
+                st = []
+                for spec_ in self.oracle_selftest:
+                    v_, d_ = run_replay(build, replay, spec_, timeout=900)
+                    st.append({"spec": spec_, "verdict": v_})
+                    if v_ != "not-reproduced":
+                        inconclusive.append(("replay-oracle-selftest", "%s: %s %s" % (spec_, v_, str(d_)[:300])))
+                self.extra_cov["replay_oracle_selftest"] = st
+            if self.validate and os.environ.get("VERIF_NO_VALIDATE") != "1":
                 if build is None:
                     build = Build()
                     build.acquire()
@@ -424,8 +433,9 @@ class Check:
             "wall_s": round(time.time() - self.t0, 2),
             "violations": len(violations),
         }
-        os.makedirs(os.path.join(VERIF, "evidence"), exist_ok=True)
-        with open(os.path.join(VERIF, "evidence", "%s.json" % self.pid), "w") as f:
+        evdir = os.environ.get("VERIF_EVIDENCE_DIR") or os.path.join(VERIF, "evidence")     # redirected for experiments only
+        os.makedirs(evdir, exist_ok=True)
+        with open(os.path.join(evdir, "%s.json" % self.pid), "w") as f:
             json.dump(ev, f, indent=1, default=str)
 
 
@@ -543,10 +553,32 @@ def repo_build_is_current():
     return True
 
 
+def _prune_builds(keep=None):
+    """remove cached scratch builds of other source states that nobody is using (older than 10 minutes or unused)"""
+    import glob
+    for d in glob.glob(os.path.join(SCRATCH_ROOT, "bioscrape-verif-build-*")):
+        if not os.path.isdir(d) or d == keep:
+            continue
+        try:
+            n = int(open(d + ".users").read() or 0) if os.path.exists(d + ".users") else 0
+        except ValueError:
+            n = 0
+        stale = time.time() - os.path.getmtime(d) > 6 * 3600
+        if n <= 0 or stale:
+            shutil.rmtree(d, ignore_errors=True)
+            for ext in (".users", ".lock"):
+                try:
+                    os.remove(d + ext)
+                except OSError:
+                    pass
+
+
 class Build:
     """A build of the current working tree usable as PYTHONPATH.  Uses /repo in place when its
     .so files are newer than all sources; otherwise a flock-shared scratch build keyed by the
-    source hash, removed by the last user."""
+    hash of the sources.  The newest scratch build is kept as a cache (one directory, rebuilt whenever it is
+    missing; builds for other source hashes are pruned here), so that the checks run on one tree state share one
+    build; `./vf clean` or VERIF_KEEP_BUILD=0 removes it."""
 
     def __init__(self):
         self.path = None
@@ -565,6 +597,7 @@ class Build:
         try:
             users = d + ".users"
             n = int(open(users).read() or 0) if os.path.exists(users) else 0
+            _prune_builds(keep=d)
             if not os.path.exists(os.path.join(d, ".built")):
                 shutil.rmtree(d, ignore_errors=True)
                 os.makedirs(d)
@@ -598,16 +631,15 @@ class Build:
         fcntl.flock(lock, fcntl.LOCK_EX)
         try:
             users = d + ".users"
-            n = int(open(users).read() or 1) - 1
-            if n <= 0:
+            n = max(0, int(open(users).read() or 1) - 1)
+            open(users, "w").write(str(n))
+            if n <= 0 and os.environ.get("VERIF_KEEP_BUILD", "1") == "0":
                 shutil.rmtree(d, ignore_errors=True)
                 for ext in (".users",):
                     try:
                         os.remove(d + ext)
                     except OSError:
                         pass
-            else:
-                open(users, "w").write(str(n))
         finally:
             fcntl.flock(lock, fcntl.LOCK_UN)
             lock.close()
